@@ -284,7 +284,7 @@ func checkRandUnion(w *World, r *Result) {
 	intnOK := false
 	ast.Inspect(fi.Decl.Body, func(x ast.Node) bool {
 		call, isC := x.(*ast.CallExpr)
-		if !isC || fullName(calleeOf(info, call)) != "fmt.Sprintf" {
+		if !isC || !isSprintf(info, &call) {
 			return true
 		}
 		format, vas := verbArgs(info, call)
@@ -371,7 +371,7 @@ func checkRandStruct(w *World, r *Result) {
 	okAssign := false
 	ast.Inspect(fl.rs.Body, func(x ast.Node) bool {
 		call, ok := x.(*ast.CallExpr)
-		if !ok || fullName(calleeOf(info, call)) != "fmt.Sprintf" {
+		if !ok || !isSprintf(info, &call) {
 			return true
 		}
 		format, vas := verbArgs(info, call)
